@@ -184,7 +184,10 @@ def _job(job) -> List[Dict[str, Any]]:
     roles = prog.roles()[idx]
     out: List[Dict[str, Any]] = []
     games = [(sizes, lv) for sizes in game._sizes(tier) for lv in game.weak_orderings(len(sizes))] + list(game.LARGE_GAMES)
+    n_viol = 0
     for sizes, lv in games:
+        if n_viol >= 3:
+            break  # three games on which the stored terms are not the closed form are reported; the remaining games would add nothing
         if True:
             c = f"rate stores the closed-form posterior: team sizes {sizes}, {game.describe(lv)}"
             want = expected(roles.short, sizes, lv)
@@ -250,6 +253,7 @@ def _job(job) -> List[Dict[str, Any]]:
                 if verdict == "VIOLATED":
                     break
             out.append(game._inst("R1.1", verdict, roles, "rate", c, msg))
+            n_viol += verdict == "VIOLATED"
     return out
 
 
